@@ -77,6 +77,9 @@ func init() {
 			jobs = append(jobs, gossipJob{P: P4(3, 2, 0, 1, 1, 1, true), Need: []string{"LeavesSeen", "Unreachables", "Relearned"}})
 		}
 		runGossip(run, "C14", jobs)
+		// the real detector in the loop: reachable/unreachable/expired
+		// notifications fold to the flags of the view after every event
+		c11DetectorLoop(run, "C14")
 		schedPass(run)
 		return run.Finish()
 	})
@@ -143,7 +146,7 @@ func init() {
 			}
 		}
 		runGossip(run, "C11", jobs)
-		c11DetectorLoop(run)
+		c11DetectorLoop(run, "C11")
 		schedPass(run)
 		return run.Finish()
 	})
